@@ -55,6 +55,17 @@ CLAIMED['C14'] = dict(
     design='6/C14', technique='Lean 4 arithmetic proof over the C04 refinement + exhaustive differential run',
     note='Per-framing overhead is checked on the real framers by the harness (transport stub returns exactly the bytes asked).')
 
+CLAIMED['C20'] = dict(
+    text='Kernel-checked: pdu_bound/serve_bound (every response PDU <= 253 bytes for every identity and request), exchange_total, '
+         'page_progress, chain_complete (values <= 244 bytes: the pages of the client chain concatenate to exactly the configured '
+         'non-empty objects of the category from the start id on, within max(1,#objects) requests, by induction on the chain), '
+         'chain_terminates (any start id), individual_access, and chain_245_counterexample / C20_counterexample (a 245-byte object '
+         'is never delivered: the full statement is false); the model is compared page by page with ServerDecoder -> execute -> '
+         'encode -> ClientDecoder of the real code on generated identities each run.',
+    design='6/C20', technique='Lean 4 proof about a model of the paging chain + differential correspondence',
+    note='Modelled not verified: dict insertion order, struct.pack of bytes. Identity values are byte strings (ASCII str); '
+         'non-ASCII str values are a recorded known finding checked by direct predicates only.')
+
 PENDING_REASON = 'check not built yet in this revision (work in progress; planned per DESIGN.md section 6)'
 
 def main():
